@@ -106,7 +106,7 @@ func (c16) Gen(r *rand.Rand, tier string, run int) *core.Case {
 			case x < 8:
 				op = core.Op{Kind: "terminate", X: int64(1 + r.IntN(objs+4*r.IntN(2)))}
 			default:
-				op = core.Op{Kind: []string{"add", "add-family", "readd", "add-early", "add-doomed", "add-direct"}[r.IntN(6)], X: int64(1 + r.IntN(objs))}
+				op = core.Op{Kind: []string{"add", "add-family", "readd", "add-early", "add-doomed", "add-direct", "add-failing"}[r.IntN(7)], X: int64(1 + r.IntN(objs))}
 			}
 			op.Actor = a
 			op.Y = int64(r.IntN(2))
@@ -550,6 +550,30 @@ func (c16) Run(c *core.Case, env *core.Env) {
 					}
 					c16direct(env, a, i, o)
 					env.Probe("objects-created-with-the-generated-helper")
+				case "add-failing":
+					// an object that cannot start: its activation reports an
+					// error. Add fails; the identifier it drew is nobody's:
+					// the application may tidy up with Remove, clients may
+					// call it, both are told that there is no such object
+					h := env.Invoke(a, "add-failing", "")
+					zzsim.SetNode("server")
+					fimpl := &ProbeImpl{Env: env, Obj: 900 + 10*a + i, ActivateErr: fmt.Errorf("this object cannot start")}
+					fid, err := w.Svc.Add(probe.ProbeObject(fimpl))
+					env.Return(h, fmt.Sprintf("id=%d", fid), err)
+					if err != nil && op.Y%2 == 0 {
+						h2 := env.Invoke(a, "remove-after-failed-add", fmt.Sprintf("id=%d", fid))
+						err := w.Svc.Remove(fid)
+						env.Return(h2, "", err)
+					}
+					zzsim.SetNode("harness")
+					if err != nil {
+						fp := probe.MakeProbe(nil, bus.NewProxy(clients[a%len(clients)], meta, w.ServiceID, fid))
+						tok := probe.Token{Client: int32(a), Seq: int32(2000 + i), Nonce: int64(fid), Text: "t"}
+						h3 := env.Invoke(a, "call-after-failed-add", fmt.Sprintf("%s obj%d", tokOf(tok).Key(), fimpl.Obj))
+						ret, err := fp.Echo(tok)
+						env.Return(h3, tokOf(ret).String(), err)
+					}
+					env.Probe("objects-whose-activation-fails")
 				case "add-early":
 					addEarly(a, int(op.Y), false)
 					env.Probe("objects-called-while-being-activated")
@@ -715,6 +739,25 @@ func (c16) Check(c *core.Case, env *core.Env, res zzsim.Result, v *core.Verdict)
 	}
 	const inf = int64(1) << 62
 	execs := env.Execs()
+	// an object whose activation failed was never added: nobody reaches it
+	for _, h := range hs {
+		switch h.Kind {
+		case "call-after-failed-add":
+			if h.OK {
+				bad("failed-add/call-succeeded", "the activation of the object failed and Add said so, yet a call to the identifier it drew succeeded: %s", h)
+			}
+			var key string
+			var obj int
+			fmt.Sscanf(h.Arg, "%s obj%d", &key, &obj)
+			for _, e := range execs {
+				if e.Obj == obj && e.Method != "OnTerminate" {
+					bad("failed-add/object-invoked", "the object whose activation failed ran %s", e.Method)
+				}
+			}
+		case "remove-after-failed-add":
+			env.Probe("remove-after-a-failed-add")
+		}
+	}
 	// identifiers unique among live objects
 	for i, a := range st.objs {
 		for _, b := range st.objs[i+1:] {
